@@ -114,6 +114,8 @@ func runC09(ctx *Ctx) error {
 		p, t := genValidLayout(r, 2)
 		t.Timescale = 0
 		addC08Case(ctx, c08Input{hex.EncodeToString(p), t, false, "hostile-zero-timescale", false})
+		t.ZeroMovie = true // no usable timescale anywhere in the file
+		addC08Case(ctx, c08Input{hex.EncodeToString(p), t, false, "hostile-zero-timescale", false})
 	}
 	n := ctx.N(500, 12000)
 	// named cases of the property statement
